@@ -56,7 +56,7 @@ func canGlue(a, b string) bool {
 	return false
 }
 
-var ignoredSeps = []string{" ", " ", " ", ",", "\n", "\r\n", "\t", "\r", " , ", "\n\n", " # c\n", "#\n", "  ", "\ufeff", " #x,y {\r\n"}
+var ignoredSeps = []string{" ", " ", " ", ",", "\n", "\r\n", "\t", "\r", " , ", "\n\n", " # c\n", "#\n", "  ", "\ufeff", " #x,y {\r\n", " # é日本\U0001F600\n"}
 
 // RenderSpaces joins lexemes with single spaces.
 func RenderSpaces(toks []RTok) string {
